@@ -81,6 +81,10 @@ CLAIMED = {
             "runtime monitor: random Or-of-And-of-Rep predicate trees proved through HashProve/HashVerify and through the deniable clique protocol (harness Context, k=2..5, -race in thorough); ground-truth evaluation of the claimed branch in the group; differential reference verifier on group operations for transcript mutations; witness-free forgers",
             "Acceptance must coincide with the truth of the claimed branch for every branch choice and every single-secret falsification; each transcript field mutation/truncation is judged by a reference verifier; proofs are checked against other points, predicates and protocol names; forgers with simulated branches, guessed or transplanted challenges must be rejected.",
             "soundness is judged on explicit cheating-prover families; Ed25519, P-256 and BN256 G1."),
+    "C18": ("exploration",
+            "runtime monitor: lock-step straight-line programs on every implementation of the same object (Ed25519 ct / AllowVarTime / edwards25519vartime projective+extended / math/big model / crypto/ed25519; P-256, BN256 G1, BN254 G1 vs math/big Weierstrass model; Kilic / CIRCL / gnark) + build-variant differential: the ctprog transcript program built with tags {default, generic, purego, constantTime, constantTime+purego} and compared line by line",
+            "Point encodings must be identical after every step of every program on all implementations of a curve (scalars compared as integers), BLS12-381 back-ends must agree byte-for-byte on scalars, G1, G2, GT, Hash, Pair and BLS signatures; the verif hooks compare field ops, the three scalar multipliers and slide with math/big. Five builds of one seeded transcript (mod.Int, compatible.Int, Ed25519, CIRCL, Shamir, Schnorr/EdDSA/BLS, XOFs, random; full library for default/generic/purego) must print identical lines; a differing line with identical operands is a violation class keyed by its op.",
+            "math/big models, crypto/ed25519; purego also switches gnark-crypto, CIRCL and x/crypto to pure Go, so dependency assembly is covered differentially; Pick is excluded from cross-back-end comparison (legitimately different)."),
 }
 
 PENDING = {}
